@@ -30,7 +30,7 @@ RULE = (
     "layer: every dictionary over two labels with <= 3 rules of arity <= 2 per label and both roots; "
     "thorough: also every dictionary over three labels with <= 2 rules per label); table = a random integer universe "
     "wrapped as strategies and searched with the real searcher + default or memory-saving rule "
-    "database (with twin single-child rows and overlapping one-way cycles), has_specification polled "
+    "database (with twin single-child rows and overlapping one-way cycles), has_specification polled (a third of the searches also with polls interrupted inside the pruning by a BaseException and asked again) "
     "after every k-th work packet (k = 1, 2, 3, 5 or only at the end); words = a real word-universe "
     "search (symmetries, inferral, iterative) with every has_specification call judged. "
     "non-trivial = dict: a root tree exists and >= 2 finders returned trees with > 3 nodes; "
